@@ -24,7 +24,7 @@ CONSTANT Strict
 
 VARIABLES tid, l,
           sval   \* the semaphore's counter as observed (1 = free, 0 = taken; anything else is a protocol failure)
-tvars == <<work, faults, pc, idx, buf, sem, tlog, ncalls, exc, completed, raisedAt, hist, tid, l, sval>>
+tvars == <<work, faults, pc, idx, buf, sem, tlog, ncalls, exc, completed, raisedAt, reads, hist, tid, l, sval>>
 
 Traces == JsonDeserialize(IOEnv.TRACE_FILE)
 
@@ -48,7 +48,10 @@ StrictStep ==
     /\ CASE e.act = "local"   -> Local(t) /\ e.ret = None
          [] e.act = "acquire" -> Acquire(t) /\ e.ret = None
          [] e.act = "call"    -> Call(t) /\ tlog'[Len(tlog')] = EntryOf(e) /\ e.ret = None
-         [] e.act = "release" -> Release(t) /\ e.ret = (IF exc[t] THEN "raised" ELSE "ok")
+         [] e.act = "release" -> /\ Release(t) /\ e.ret = (IF exc[t] THEN "raised" ELSE "ok")
+                                 /\ IF Len(reads'[t]) > Len(reads[t])
+                                    THEN e.read = (IF reads'[t][Len(reads'[t])] THEN "true" ELSE "false")
+                                    ELSE e.read = None
          [] OTHER -> FALSE
     /\ sem' = e.holder
     /\ sval' = (IF sem' = Free THEN 1 ELSE 0) /\ sval' = e.semval
@@ -69,6 +72,7 @@ LooseStep ==
                                 ELSE IF took \/ e.act = "try_acquire" THEN "in" ELSE @]
     /\ completed' = IF e.ret = "ok" THEN completed \cup {<<t, i>>} ELSE completed
     /\ raisedAt' = IF e.ret = "raised" THEN raisedAt \cup {<<t, i>>} ELSE raisedAt
+    /\ reads' = IF e.read = None THEN reads ELSE [reads EXCEPT ![t] = Append(@, e.read = "true")]
     /\ UNCHANGED <<work, faults, buf, ncalls, exc, hist>>
 
 TraceNext ==
